@@ -263,67 +263,113 @@ structure EX where
   bestBonus : Int := -1
   done : Bool := false
 
-def exactMatchNaive (cfg : Cfg) (cs norm fwd boundary : Bool) (t : Text) (isBytes : Bool) (p : Text) : M Res := do
-  if p.size == 0 then return ⟨0, 0, 0, Option.none⟩
-  let n := t.size
-  let m := p.size
-  if n < m then return Res.none
-  if (asciiFuzzyIndex t isBytes p cs).isNone then return Res.none
-  -- the Go loop moves `index` back on a mismatch; it visits at most n*(m+1) positions
-  let mut st : EX := {}
-  for _ in [0:n * (m + 1) + 1] do
-    if st.done || st.index ≥ n then break
-    let index_ := indexAt st.index n fwd
-    let c0 ← get t index_ "exact"
-    let c := foldRune cfg cs norm c0
-    let pidx_ := indexAt st.pidx m fwd
-    let pc ← get p pidx_ "exact pattern"
-    let mut ok := pc == c
-    let mut bonus := st.bonus
-    if ok then
-      if pidx_ == 0 then bonus ← bonusAt cfg t index_
-      if boundary then
-        ok := pidx_ > 0 || bonus ≥ bonusBoundary
-        if ok && pidx_ == 0 then
-          ok ← if index_ == 0 then pure true else (do let c ← get t (index_ - 1 : Nat) "exact"; pure (decide (charClassOf cfg c ≤ cDelim)))
-        if ok && pidx_ == m - 1 then
-          ok ← if index_ == n - 1 then pure true else (do let c ← get t (index_ + 1 : Nat) "exact"; pure (decide (charClassOf cfg c ≤ cDelim)))
-    if ok then
-      let pidx := st.pidx + 1
-      if pidx == m then
-        let (bp, bb) := if bonus > st.bestBonus then (some st.index, bonus) else (st.bestPos, st.bestBonus)
-        if bonus ≥ bonusBoundary then
-          st := { st with pidx := pidx, bonus := bonus, bestPos := bp, bestBonus := bb, done := true }
-        else
-          -- index -= pidx - 1; then index++
-          st := { index := st.index - (pidx - 1) + 1, pidx := 0, bonus := 0, bestPos := bp, bestBonus := bb }
+/- The scanning loop is written as a step function iterated with fuel, and the comparison, the
+   transition and the final scoring as separate functions, so that invariants can be stated per
+   step (Lemmas/Exact.lean). -/
+/-- The bonus of the current attempt: taken at the term's first character. -/
+def exBonus (cfg : Cfg) (t : Text) (pidx_ index_ : Nat) (cur : Int) : M Int :=
+  if pidx_ == 0 then bonusAt cfg t index_ else pure cur
+
+/-- ExactMatchBoundary: is the neighbour at `j` (if the text has one there) not a word character? -/
+def exNbr (cfg : Cfg) (t : Text) (atEdge : Bool) (j : Nat) : M Bool :=
+  if atEdge then pure true else do
+    let c ← get t (j : Nat) "exact"
+    pure (decide (charClassOf cfg c ≤ cDelim))
+
+def exLeft (cfg : Cfg) (t : Text) (ok1 : Bool) (pidx_ index_ : Nat) : M Bool :=
+  if ok1 && pidx_ == 0 then exNbr cfg t (index_ == 0) (index_ - 1) else pure ok1
+
+def exRight (cfg : Cfg) (t : Text) (ok2 : Bool) (pidx_ index_ m : Nat) : M Bool :=
+  if ok2 && pidx_ == m - 1 then exNbr cfg t (index_ == t.size - 1) (index_ + 1) else pure ok2
+
+/-- The comparison of one iteration: does the text character at the scan position agree with the
+    pattern character (and, for ExactMatchBoundary, do the boundary conditions hold at the first /
+    last pattern character), and the bonus remembered for the current attempt. -/
+def exDecide (cfg : Cfg) (cs norm fwd boundary : Bool) (t p : Text) (st : EX) : M (Bool × Int) := do
+  let c0 ← get t (indexAt st.index t.size fwd) "exact"
+  let pc ← get p (indexAt st.pidx p.size fwd) "exact pattern"
+  if pc == foldRune cfg cs norm c0 then do
+    let bonus ← exBonus cfg t (indexAt st.pidx p.size fwd) (indexAt st.index t.size fwd) st.bonus
+    if boundary then do
+      let ok2 ← exLeft cfg t (indexAt st.pidx p.size fwd > 0 || bonus ≥ bonusBoundary) (indexAt st.pidx p.size fwd) (indexAt st.index t.size fwd)
+      let ok ← exRight cfg t ok2 (indexAt st.pidx p.size fwd) (indexAt st.index t.size fwd) p.size
+      pure (ok, bonus)
+    else pure (true, bonus)
+  else pure (false, st.bonus)
+
+/-- What the loop does with the verdict: advance inside the attempt, record a complete
+    occurrence (and stop at one with a boundary bonus, else restart right after the attempt's
+    start), or restart after a mismatch. Includes the loop's own `index++`. -/
+def exNext (m : Nat) (st : EX) (ok : Bool) (bonus : Int) : EX :=
+  if ok then
+    let pidx := st.pidx + 1
+    if pidx == m then
+      let (bp, bb) := if bonus > st.bestBonus then (some st.index, bonus) else (st.bestPos, st.bestBonus)
+      if bonus ≥ bonusBoundary then
+        { st with pidx := pidx, bonus := bonus, bestPos := bp, bestBonus := bb, done := true }
       else
-        st := { st with index := st.index + 1, pidx := pidx, bonus := bonus }
+        { index := st.index - (pidx - 1) + 1, pidx := 0, bonus := 0, bestPos := bp, bestBonus := bb }
     else
-      -- index -= pidx; then index++
-      st := { st with index := st.index - st.pidx + 1, pidx := 0, bonus := 0 }
+      { st with index := st.index + 1, pidx := pidx, bonus := bonus }
+  else
+    { st with index := st.index - st.pidx + 1, pidx := 0, bonus := 0 }
+
+/-- One iteration of the scanning loop. -/
+def exStep (cfg : Cfg) (cs norm fwd boundary : Bool) (t p : Text) (st : EX) : M EX := do
+  let r ← exDecide cfg cs norm fwd boundary t p st
+  pure (exNext p.size st r.1 r.2)
+
+/-- The loop: stops when a boundary-bonus occurrence was found or the text is exhausted. -/
+def exLoop (cfg : Cfg) (cs norm fwd boundary : Bool) (t p : Text) : Nat → EX → M EX
+  | 0, st => pure st
+  | fuel + 1, st =>
+    if st.done || st.index ≥ t.size then pure st
+    else do
+      let st' ← exStep cfg cs norm fwd boundary t p st
+      exLoop cfg cs norm fwd boundary t p fuel st'
+
+/-- Is there an underscore at `j` (asked only when `cond` says the position exists)? -/
+def underscoreAt (t : Text) (cond : Bool) (j : Nat) : M Bool :=
+  if cond then do
+    let c ← get t (j : Nat) "exact score"
+    pure (c == 95)
+  else pure false
+
+/-- The score ExactMatchBoundary gives: the boundary bonus, reduced when the occurrence is
+    delimited by underscores, plus 16 and the whitespace bonus per character. -/
+def exBoundaryScore (cfg : Cfg) (t : Text) (bonus : Int) (sidx eidx m : Nat) : M Int := do
+  let u1 ← underscoreAt t (sidx > 0) (sidx - 1)
+  let u2 ← underscoreAt t (eidx < t.size) eidx
+  let deduct0 : Int := (bonus - bonusBoundary) + 1
+  let score1 : Int := if u1 then bonus - (deduct0 + 1) else bonus
+  let deduct1 : Int := if u1 then 1 else deduct0
+  let score2 : Int := if u2 then score1 - deduct1 else score1
+  pure (score2 + scoreMatch * m + cfg.sch.bWhite * (m + 1))
+
+/-- The range the best occurrence occupies in the text. -/
+def exRange (fwd : Bool) (n m bestPos : Nat) : Nat × Nat :=
+  if fwd then (bestPos + 1 - m, bestPos + 1) else (n - (bestPos + 1), n - (bestPos + 1 - m))
+
+def exFinish (cfg : Cfg) (cs norm fwd boundary : Bool) (t p : Text) (st : EX) : M Res :=
   match st.bestPos with
-  | Option.none => return Res.none
+  | Option.none => pure Res.none
   | some bestPos =>
-    let (sidx, eidx) : Nat × Nat :=
-      if fwd then (bestPos + 1 - m, bestPos + 1) else (n - (bestPos + 1), n - (bestPos + 1 - m))
-    if boundary then
-      let bonus := st.bonus
-      let mut score : Int := bonus
-      let mut deduct : Int := (bonus - bonusBoundary) + 1
-      if sidx > 0 then
-        let c ← get t (sidx - 1 : Nat) "exact score"
-        if c == 95 then
-          score := score - (deduct + 1)
-          deduct := 1
-      if eidx < n then
-        let c ← get t eidx "exact score"
-        if c == 95 then score := score - deduct
-      score := score + scoreMatch * m + cfg.sch.bWhite * (m + 1)
-      return ⟨sidx, eidx, score, Option.none⟩
-    else
-      let (score, _) ← calculateScore cfg cs norm t p sidx eidx false
-      return ⟨sidx, eidx, score, Option.none⟩
+    let r := exRange fwd t.size p.size bestPos
+    if boundary then do
+      let score ← exBoundaryScore cfg t st.bonus r.1 r.2 p.size
+      pure ⟨r.1, r.2, score, Option.none⟩
+    else do
+      let sc ← calculateScore cfg cs norm t p r.1 r.2 false
+      pure ⟨r.1, r.2, sc.1, Option.none⟩
+
+def exactMatchNaive (cfg : Cfg) (cs norm fwd boundary : Bool) (t : Text) (isBytes : Bool) (p : Text) : M Res :=
+  if p.size == 0 then pure ⟨0, 0, 0, Option.none⟩
+  else if t.size < p.size then pure Res.none
+  else if (asciiFuzzyIndex t isBytes p cs).isNone then pure Res.none
+  else do
+    -- the Go loop moves `index` back on a mismatch; it visits at most n*(m+1) positions
+    let st ← exLoop cfg cs norm fwd boundary t p (t.size * (p.size + 1) + 1) {}
+    exFinish cfg cs norm fwd boundary t p st
 
 /-! ### PrefixMatch / SuffixMatch / EqualMatch -/
 
